@@ -91,6 +91,9 @@ func truncateBoundsSSA(r *Run, f *FuncInfo) {
 		if cv, ok := a.(*ssa.Convert); ok && isRuneSlice(cv.Type()) {
 			return p.resolve(cv.X), true, true
 		}
+		if isRuneSlice(a.Type()) {
+			return nil, false, false // the length of some other []rune (an accumulator): no byte count, and no count of s or the trail
+		}
 		return a, false, true // a length, but not of runes
 	}
 	type cmp struct {
@@ -141,6 +144,11 @@ func truncateBoundsSSA(r *Run, f *FuncInfo) {
 		if p.end == "panic" {
 			continue
 		}
+		if p.end == "loop" && p.loopHead != nil && characterLoopOnly(p.loopHead) {
+			// the next iteration leaves the loop by the exits already walked; what it changes is the
+			// collector / counter, which the results below are read through
+			continue
+		}
 		if p.end != "return" || len(p.results) != 1 {
 			failR5("a path of truncate does not return")
 			continue
@@ -189,6 +197,35 @@ func truncateBoundsSSA(r *Run, f *FuncInfo) {
 			}
 		}
 		res := p.resolve(p.results[0])
+		// a loop over the text that stops at the count size-len(trail) cannot run to the end of a text of more
+		// than size characters: a path through the exhaustion of its range is not a path of the program
+		if sTooLong && trailShort && size != nil && func() bool {
+			for _, d := range p.decisions {
+				ex, isEx := origValue(d.cond).(*ssa.Extract)
+				if !isEx || d.truth || ex.Index != 0 {
+					continue
+				}
+				nx, src, isNext := stringRangeNext(ex.Tuple)
+				if !isNext || p.resolve(src) != sParam {
+					continue
+				}
+				k, isStop := loopStopCount(nx)
+				if !isStop {
+					continue
+				}
+				sub, isSub := p.resolve(k).(*ssa.BinOp)
+				if !isSub || sub.Op != token.SUB || p.resolve(sub.X) != size {
+					continue
+				}
+				tOf, runes, isLen := runeLenOf(p, sub.Y)
+				if isLen && runes && optionValue(p, tOf, opts, "trail") && (trailOf == nil || p.resolve(trailOf) == p.resolve(tOf)) {
+					return true
+				}
+			}
+			return false
+		}() {
+			continue
+		}
 		switch {
 		case res == sParam:
 			if !sFits {
@@ -214,7 +251,34 @@ func truncateBoundsSSA(r *Run, f *FuncInfo) {
 			if !optionValue(p, trail, opts, "trail") {
 				failR5("the cut text must be followed by the trail option")
 			}
+			// kept: the number of characters kept is the value `kept`, taken from the start of the text
+			keptOK := func(kept ssa.Value) bool {
+				hi, ok := p.resolve(kept).(*ssa.BinOp)
+				if kept == nil || !ok || hi.Op != token.SUB || p.resolve(hi.X) != size || size == nil {
+					failR5("the result must be the first size-len(trail) characters followed by the trail")
+					return false
+				}
+				tOf, runes, isLen := runeLenOf(p, hi.Y)
+				if !isLen || p.resolve(tOf) != trail {
+					failR5("the number of kept characters must be size minus the length of the trail")
+					return false
+				}
+				if !runes {
+					failR4("the trail is measured in bytes: the result can exceed size characters or the bound can go negative")
+				}
+				if !trailShort || (trailOf != nil && p.resolve(trailOf) != trail) {
+					failR5("the prefix slice needs both guards before it: text longer than size and trail shorter than size (otherwise the bound is negative or past the end)")
+				}
+				return true
+			}
 			if bs, isSlice := p.resolve(add.X).(*ssa.Slice); isSlice && !isRuneSlice(bs.X.Type()) {
+				// s[:i] is a cut on characters when i is where a loop over s has counted them
+				if src, k, isCut := runeCutPoint(bs); isCut && p.resolve(src) == sParam {
+					if keptOK(k) {
+						nCut++
+					}
+					continue
+				}
 				failR4("the text is cut on bytes: a multi-byte character can be split")
 				continue
 			}
@@ -225,6 +289,13 @@ func truncateBoundsSSA(r *Run, f *FuncInfo) {
 			}
 			sl, ok := p.resolve(cv.X).(*ssa.Slice)
 			if !ok {
+				// the characters collected one by one from the start of the text, up to a count
+				if src, k, isColl := runeCollector(cv.X); isColl && isRuneSlice(cv.X.Type()) && p.resolve(src) == sParam {
+					if keptOK(k) {
+						nCut++
+					}
+					continue
+				}
 				failR5("the result must be the first size-len(trail) characters followed by the trail")
 				continue
 			}
